@@ -85,7 +85,7 @@ def main():
     os.makedirs(dst, exist_ok=True)
     for f in ('patch.diff', 'demo.py', 'notes.md'):
         p = os.path.join(a.src, f)
-        if os.path.exists(p): shutil.copy(p, os.path.join(dst, f))
+        if os.path.exists(p) and os.path.abspath(p) != os.path.abspath(os.path.join(dst, f)): shutil.copy(p, os.path.join(dst, f))
     old = {}
     mp = os.path.join(dst, 'meta.json')
     if os.path.exists(mp):
